@@ -52,6 +52,11 @@ def make_doc(seed: int, prop: str) -> tuple[dict, dict]:
         cfg["content_type_overrides"] = {"application/x-sim-archive": "application/octet-stream", "application/x-sim-doc": "application/json"}
         g.ct_overrides = cfg["content_type_overrides"]
     doc = g.document()
+    ov = cfg.get("content_type_overrides")
+    cfg = docgen.random_config(rng.stream(seed, "config"), doc)
+    cfg.setdefault("literal_enums", False)
+    if ov:
+        cfg["content_type_overrides"] = ov
     # dedicated single-parameter probe operations (DESIGN A.2): cells the parser accepts but whose
     # calls may raise while the request is being built would blind the oracle in mainstream operations
     if r.random() < 0.35:
